@@ -1,2 +1,28 @@
-(* placeholder until the theorems are integrated *)
-From SE Require Import Spec.MatchSpec.
+(* C12 - Unordered glob mode: complete, and the most specific rule wins.
+   Model: Model/Fsm.v.  Specification: Spec/MatchSpec.v (most_specific). *)
+From SE Require Import Spec.MatchSpec Proofs.FsmProofs.
+
+(* With ordering disabled the search returns the most specific matching rule whenever
+   backtracking is on, or no state has both a wildcard and a literal transition (which is what
+   the repaired TestIfNeedBacktracking guarantees: Model/Mapper.v build_fsm). *)
+Theorem C12_fsm_most_specific : stmt_fsm_most_specific.
+Proof. exact fsm_most_specific_ok. Qed.
+Print Assumptions C12_fsm_most_specific.
+
+(* complete: mapped whenever at least one rule matches *)
+Theorem C12_complete : stmt_most_specific_complete.
+Proof. exact most_specific_complete_ok. Qed.
+Print Assumptions C12_complete.
+
+(* independent of the order in which rules are written *)
+Theorem C12_order_independent : stmt_most_specific_order_independent.
+Proof. exact most_specific_order_independent_ok. Qed.
+Print Assumptions C12_order_independent.
+
+(* Non-vacuity: the former defect a.*.* + a.b.c, lookup a.b.d, without the legacy heuristic. *)
+Example C12_backtracks :
+  let rules := [ {| g_prio := 0; g_fields := [[x61];[x2a];[x2a]]; g_mmt := [] |};
+                 {| g_prio := 1; g_fields := [[x61];[x62];[x63]]; g_mmt := [] |} ] in
+  has_ambiguous_wildcard (map g_fields rules) = true /\
+  fsm_get_mapping rules true true [x61;x2e;x62;x2e;x64] s_counter = Some (0, [[x62];[x64]]).
+Proof. vm_compute. auto. Qed.
